@@ -71,7 +71,8 @@ where
         // exactly onto and just above every unit scale of the result type (2 neighbours each side), zero,
         // negative, below the smallest and above the largest scale
         let mut pairs: Vec<(A, A)> = Vec::new();
-        for &x in &small {
+        let xs_nat = if thorough() { amt::alphabet_v(tier()) } else { small.clone() };
+        for &x in &xs_nat {
             for &y in &small {
                 pairs.push((x, y));
             }
@@ -79,7 +80,8 @@ where
         let ys: Vec<A> = if thorough() { vec![one, amt::parse("2"), amt::parse("0.5"), amt::parse("-4")] } else { vec![one, amt::parse("2")] };
         let mut targets: Vec<Rat> = Vec::new();
         for s in &zr {
-            for f in ["0.99", "1", "1.01"] {
+            let factors: &[&str] = if thorough() { &["0.5", "0.99", "0.999999", "1", "1.000001", "1.01", "2"] } else { &["0.99", "1", "1.01"] };
+            for f in factors {
                 targets.push(s.mul(&Rat::parse(f).unwrap()));
             }
         }
@@ -100,7 +102,7 @@ where
                     continue;
                 }
                 if let Some(x0) = amt::near(&xt) {
-                    for x in amt::neighbourhood(x0, 2) {
+                    for x in amt::neighbourhood(x0, if thorough() { 4 } else { 2 }) {
                         pairs.push((x, y));
                     }
                 }
